@@ -21,7 +21,7 @@ var extractionEntries = []string{"sbom.(*NodeList).NodeGraph", "sbom.(*NodeList)
 func wellFounded(c *Ctx, entries []string) {
 	const RL = "loop-shape"
 	const RR = "recursion-guard"
-	c.rule(RL, "every loop is a range loop, a three-clause counter loop (i := c; i < bound; i++) whose counter and bound are not assigned in the body, or a loop on (*bufio.Scanner).Scan")
+	c.rule(RL, "every loop is a range loop, a three-clause counter loop (i := c; i < bound; i++) whose counter and bound are not assigned in the body, a loop on (*bufio.Scanner).Scan, or a work-list loop `for len(W) > 0` that removes one element of W unconditionally at the top of every iteration and grows W only under a visited-set guard (negative lookup of K in a map, followed by the insertion of K)")
 	c.rule(RR, "every recursive call is either dominated by a negative lookup of key K in a map M followed by M[K] = … with M passed on unchanged (visited-set), or descends into an element of a slice-of-struct-values field of its own parameter (a finite tree)")
 	ds := c.reachDecls(RL, entries...)
 	byObj := map[*types.Func]*declInfo{}
@@ -103,6 +103,11 @@ func counterLoop(d *declInfo, l *ast.ForStmt) (bool, string) {
 			if f, _ := typeutil.Callee(d.pkg.TypesInfo, ce).(*types.Func); f != nil && f.FullName() == "(*bufio.Scanner).Scan" {
 				return true, "scanner loop: each iteration consumes input or stops"
 			}
+		}
+	}
+	if l.Init == nil && l.Post == nil && l.Cond != nil {
+		if ok, why := worklistLoop(d, l); ok {
+			return true, why
 		}
 	}
 	if l.Init == nil || l.Cond == nil || l.Post == nil {
@@ -725,4 +730,121 @@ func mapShape(t types.Type) string {
 		return "nodes"
 	}
 	return ""
+}
+
+// worklistLoop: `for len(W) > 0 { x := W[…]; W = W[1:] | W[:len(W)-1]; … }` where the removal is a
+// top-level statement of the body ahead of any continue, and every append onto W is dominated by a
+// negative lookup of a key in a map followed by the insertion of that key (so the number of pushes
+// is bounded by the number of distinct keys).
+func worklistLoop(d *declInfo, l *ast.ForStmt) (bool, string) {
+	be, ok := l.Cond.(*ast.BinaryExpr)
+	if !ok {
+		return false, ""
+	}
+	var w types.Object
+	isLenOf := func(e ast.Expr) types.Object {
+		ce, ok := e.(*ast.CallExpr)
+		if !ok || len(ce.Args) != 1 {
+			return nil
+		}
+		if id, ok := ce.Fun.(*ast.Ident); !ok || id.Name != "len" {
+			return nil
+		}
+		return objOf(d.pkg, ce.Args[0])
+	}
+	zero := func(e ast.Expr) bool {
+		v, ok := constOf(d.pkg, e)
+		return ok && v.isInt() && v.int() == 0
+	}
+	switch {
+	case (be.Op == token.GTR || be.Op == token.NEQ) && zero(be.Y):
+		w = isLenOf(be.X)
+	case be.Op == token.LSS && zero(be.X):
+		w = isLenOf(be.Y)
+	}
+	if w == nil {
+		return false, ""
+	}
+	// unconditional removal at the top level of the body, before any statement that can `continue`
+	shrinks := false
+	for _, st := range l.Body.List {
+		as, isAs := st.(*ast.AssignStmt)
+		if isAs && len(as.Lhs) == 1 && len(as.Rhs) == 1 && objOf(d.pkg, as.Lhs[0]) == w {
+			if se, isSl := as.Rhs[0].(*ast.SliceExpr); isSl && objOf(d.pkg, se.X) == w {
+				// W[1:] or W[:len(W)-1]
+				if se.Low != nil && se.High == nil {
+					if v, isC := constOf(d.pkg, se.Low); isC && v.isInt() && v.int() >= 1 {
+						shrinks = true
+					}
+				}
+				if se.Low == nil && se.High != nil {
+					if hb, isB := se.High.(*ast.BinaryExpr); isB && hb.Op == token.SUB && isLenOf(hb.X) == w {
+						if v, isC := constOf(d.pkg, hb.Y); isC && v.isInt() && v.int() >= 1 {
+							shrinks = true
+						}
+					}
+				}
+			}
+			if shrinks {
+				break
+			}
+		}
+		// anything that may skip the removal ends the search
+		mayLeave := false
+		ast.Inspect(st, func(n ast.Node) bool {
+			if b, ok := n.(*ast.BranchStmt); ok && b.Tok == token.CONTINUE {
+				mayLeave = true
+			}
+			return true
+		})
+		if mayLeave {
+			break
+		}
+	}
+	if !shrinks {
+		return false, "the work list " + w.Name() + " is not shortened unconditionally at the top of every iteration"
+	}
+	// growth only under a visited-set guard
+	bad := ""
+	n := 0
+	ast.Inspect(l.Body, func(x ast.Node) bool {
+		as, ok := x.(*ast.AssignStmt)
+		if !ok || len(as.Lhs) != 1 || len(as.Rhs) != 1 || objOf(d.pkg, as.Lhs[0]) != w {
+			return true
+		}
+		ce, isCall := as.Rhs[0].(*ast.CallExpr)
+		if !isCall {
+			return true
+		}
+		if id, isId := ce.Fun.(*ast.Ident); !isId || id.Name != "append" {
+			return true
+		}
+		n++
+		guarded := false
+		for _, f := range membersAt(d, as) {
+			if f.present || f.m == nil {
+				continue
+			}
+			ast.Inspect(l.Body, func(y ast.Node) bool {
+				a2, ok := y.(*ast.AssignStmt)
+				if !ok || a2.Pos() > as.Pos() {
+					return true
+				}
+				for _, lh := range a2.Lhs {
+					if ix, ok := lh.(*ast.IndexExpr); ok && baseObj(d, ix.X) == f.m && sameKey(types.ExprString(ix.Index), f.key) {
+						guarded = true
+					}
+				}
+				return true
+			})
+		}
+		if !guarded {
+			bad = "an append onto the work list " + w.Name() + " is not under a visited-set guard (negative lookup of a key followed by its insertion)"
+		}
+		return true
+	})
+	if bad != "" {
+		return false, bad
+	}
+	return true, fmt.Sprintf("work-list loop: %s loses one element per iteration and grows (%d site(s)) only for keys not seen before", w.Name(), n)
 }
